@@ -3,6 +3,9 @@
    yield nothing otherwise; truth-testing fails only under Strict (and is false otherwise);
    attribute / item access on an undefined fails everywhere except Chainable (where it yields an
    undefined, which then prints as nothing); `is defined`, `is undefined`, `default` never fail.
+   Maps: a key a map does not have is an undefined value like any other (printing / iterating it fails
+   under Strict and SemiStrict, a further attribute of it fails everywhere except Chainable); the
+   map itself, the keys it has, iterating it and `in` on it are defined: no mode fails.
    Written from the documentation, not from the code.  No proofs in this file. *)
 From MJ Require Import Common.Base Lang.Syntax Lang.Interp C12.Model.
 
@@ -17,4 +20,11 @@ Definition documented (m : ubehav) (s : site) : cell :=
   | IsDefinedSite => Yields str_false
   | IsUndefinedSite => Yields str_true
   | DefaultSite => Yields [49]                                                       (* "1" *)
+  | MapMissingAttrSite | MapMissingItemSite | MapMissingIterSite =>
+      match m with Strict | SemiStrict => Fails E_UndefinedError | Lenient | Chainable => Yields [] end
+  | MapMissingChainSite =>
+      match m with Chainable => Yields [] | _ => Fails E_UndefinedError end
+  | MapKeySite => Yields [49]                                                        (* "1" *)
+  | MapIterSite => Yields [107]                                                      (* "k" *)
+  | MapInSite => Yields str_false
   end.
